@@ -220,6 +220,14 @@ func e4UnderLock(p *Prog, r *Report, rule string, allow []allowEntry) {
 	for _, fn := range p.Funcs {
 		fname := p.FuncName(fn)
 		per := map[string]int{}
+		// an allow-list entry written for a function also covers the private single-use
+		// helper that part of its body was moved into
+		homeOf := map[string]bool{fname: true}
+		if p.singleUse(fn) {
+			for _, h := range p.attributedTo(fname) {
+				homeOf[h] = true
+			}
+		}
 		EachInstr(fn, func(in ssa.Instruction) {
 			if _, isDefer := in.(*ssa.Defer); isDefer {
 				return
@@ -235,7 +243,7 @@ func e4UnderLock(p *Prog, r *Report, rule string, allow []allowEntry) {
 					// a single-use private helper is judged at its call site, in the caller's
 					// terms; an allow-list entry written for the helper itself stays satisfied
 					for i, a := range allow {
-						if a.Fn == fname && strings.Contains(d.Kind+": "+d.What, a.Match) {
+						if homeOf[a.Fn] && strings.Contains(d.Kind+": "+d.What, a.Match) {
 							used[i] = true
 						}
 					}
@@ -292,7 +300,7 @@ func e4UnderLock(p *Prog, r *Report, rule string, allow []allowEntry) {
 				return
 			}
 			for i, a := range allow {
-				if a.Fn == fname && strings.Contains(desc+" "+strings.Join(chain, " -> "), a.Match) {
+				if homeOf[a.Fn] && strings.Contains(desc+" "+strings.Join(chain, " -> "), a.Match) {
 					used[i] = true
 					if a.Guard != "" && !hasAtom(p.GuardStrings(in), a.Guard) {
 						r.Bad(rule, key, pos, fmt.Sprintf("%s under %s is allow-listed only under the guard `%s`, which no longer dominates it (guards: %v)", desc, strings.Join(held, ","), a.Guard, p.GuardStrings(in)))
